@@ -1,7 +1,7 @@
 (* The environment of this sandbox: which parser modules exist in /repo and what they do.
    pel_registry (component names, message registry) is absent here, so comp_name is empty. *)
 From Coq Require Import List NArith ZArith Bool Arith.
-From PV Require Import Base.Bytes Base.Lit Base.Json Model.Render Gen.Tables.
+From PV Require Import Base.Bytes Base.Lit Base.Json Model.Render Model.Hwdiags Gen.Tables.
 Import ListNotations.
 Open Scope N_scope.
 
@@ -33,4 +33,11 @@ Definition shipped_env (ud_oe500 ud_m2c00 : N -> N -> bytes -> plugin_result)
      co_import := fun m =>
        if text_eqb m (L "calloutparsers.ocallouts.ocallouts") then IFound ocallouts else INotFound |}.
 
-Definition env0 : env := shipped_env (fun _ _ _ => unsupported) (fun _ _ _ => unsupported) (fun _ _ => unsupported).
+(* the exception text of a failing shipped plugin is not modelled: the harness compares such error notes up to this marker *)
+Definition hw_plugin (r : hw_result) : plugin_result :=
+  match r with HwOk j => PRetJ j | HwRaise => PRaise (L "@exc") | HwFuel => unsupported end.
+
+(* pel/hwdiags/data holds no chip data files in this repository: the chip-data environment is empty *)
+Definition env0 : env :=
+  shipped_env (fun sub ver d => hw_plugin (oe500_ud [] sub ver d)) (fun _ _ _ => unsupported)
+              (fun refcode words => hw_plugin (oe500_src [] refcode words)).
